@@ -110,6 +110,34 @@ pub fn corpus(out: &mut Out, prop: &str) {
         sc(0, true, Command::HSet(k("h"), vec![(SDS::new(vec![0xff]), s("v"))])),
         sc(0, true, Command::HKeys(k("h"))),
     ]);
+    let zadd = |key: &str, pairs: Vec<(f64, SDS)>, xx: bool| Command::ZAdd { key: k(key), pairs, nx: false, xx, gt: false, lt: false, ch: false };
+    run_scripted(out, prop, "zadd-xx-empty-zset", vec![
+        sc(0, true, zadd("z", vec![(1.0, s("a"))], true)),
+        sc(0, true, Command::Exists(vec![k("z")])),
+        sc(0, true, Command::TypeOf(k("z"))),
+    ]);
+    run_scripted(out, prop, "zset-infinite-score-ghost", vec![
+        sc(0, true, zadd("z", vec![(f64::NEG_INFINITY, s("m")), (1.0, s("n"))], false)),
+        sc(0, true, Command::ZRem(k("z"), vec![s("m")])),
+        sc(0, true, Command::ZRange(k("z"), 0, -1, false)),
+    ]);
+    run_scripted(out, prop, "zrange-bounds-parsed-after-lookup", vec![
+        sc(0, true, Command::ZCount(k("missing"), "abc".into(), "5".into())),
+    ]);
+    run_scripted(out, prop, "zrangebyscore-negative-offset", vec![
+        sc(0, true, zadd("z", vec![(1.0, s("a"))], false)),
+        sc(0, true, Command::ZRangeByScore { key: k("z"), min: "-inf".into(), max: "+inf".into(), with_scores: false, limit: Some((-1, 10)) }),
+    ]);
+    run_scripted(out, prop, "zset-member-not-binary-safe", vec![
+        sc(0, true, zadd("z", vec![(1.0, SDS::new(vec![0xff]))], false)),
+        sc(0, true, Command::ZRange(k("z"), 0, -1, false)),
+    ]);
+    run_scripted(out, prop, "lmove-same-key-drops-ttl", vec![
+        sc(0, true, Command::RPush(k("l"), vec![s("a")])),
+        sc(0, true, Command::PExpire { key: k("l"), milliseconds: 5000, nx: false, xx: false, gt: false, lt: false }),
+        sc(0, true, Command::LMove { source: k("l"), dest: k("l"), wherefrom: "LEFT".into(), whereto: "LEFT".into() }),
+        sc(0, true, Command::Pttl(k("l"))),
+    ]);
     run_scripted(out, prop, "setrange-check-order", vec![
         sc(0, true, Command::RPush(k("l"), vec![s("a")])),
         sc(0, true, Command::SetRange(k("l"), 1 << 40, s("x"))),
@@ -125,10 +153,10 @@ pub fn run(a: &Args) {
     }
     out.extra.insert("families_covered".into(), serde_json::json!(FAMILIES));
     out.extra.insert("not_in_command_enum".into(), serde_json::json!(NOT_IN_ENUM));
-    out.finish("case = one sequence of 1..60 commands (strings, counters, keys, expiry, lists, sets, hashes over 5 colliding keys; clock moved between commands by 0 / 1 ms / random / exactly-the-deadline / one-ms-before / one-after, through set_time or update_time_readonly) run on a fresh real CommandExecutor; after every command the reply and the whole visible keyspace are compared with the Lean reference model; distinct by the op text of the whole sequence; non-trivial iff at least one command changed the visible keyspace and at least one reply was neither an error nor nil/0/empty");
+    out.finish("case = one sequence of 1..60 commands (strings, counters, keys, expiry, lists, sets, hashes, sorted sets over 5 colliding keys; clock moved between commands by 0 / 1 ms / random / exactly-the-deadline / one-ms-before / one-after, through set_time or update_time_readonly) run on a fresh real CommandExecutor; after every command the reply and the whole visible keyspace are compared with the Lean reference model; distinct by the op text of the whole sequence; non-trivial iff at least one command changed the visible keyspace and at least one reply was neither an error nor nil/0/empty");
 }
 
-pub const FAMILIES: [&str; 7] = [
+pub const FAMILIES: [&str; 8] = [
     "strings: GET SET(NX XX GET KEEPTTL EX PX EXAT PXAT) SETNX SETEX(=SET EX) APPEND GETSET STRLEN MGET MSET MSETNX GETRANGE SETRANGE GETEX GETDEL",
     "counters: INCR DECR INCRBY DECRBY",
     "keys: DEL EXISTS TYPE KEYS(*) DBSIZE FLUSHDB FLUSHALL RANDOMKEY RENAME RENAMENX",
@@ -136,11 +164,13 @@ pub const FAMILIES: [&str; 7] = [
     "lists: LPUSH RPUSH LPOP RPOP LLEN LINDEX LRANGE LSET LTRIM RPOPLPUSH LMOVE",
     "sets: SADD SREM SMEMBERS SISMEMBER SCARD SPOP [count] (SPOP validated as a relation)",
     "hashes: HSET HGET HDEL HGETALL HKEYS HVALS HLEN HEXISTS HINCRBY",
+    "sorted sets: ZADD (NX XX GT LT CH) ZREM ZRANGE ZREVRANGE [WITHSCORES] ZSCORE ZRANK ZCARD ZCOUNT ZRANGEBYSCORE [WITHSCORES] [LIMIT] — integral scores |x| < 2^53 and ±inf only; float formatting excluded",
 ];
-pub const NOT_IN_ENUM: [&str; 5] = [
+pub const NOT_IN_ENUM: [&str; 6] = [
     "PSETEX (no Command variant; SETEX is parsed into SET EX)",
     "EXPIREAT/PEXPIREAT NX|XX|GT|LT (variants carry no flags)",
     "KEYS with a pattern other than * (glob matching not modelled)",
+    "ZINCRBY ZREVRANK ZREVRANGEBYSCORE ZRANGEBYLEX ZPOPMIN/MAX ZUNIONSTORE …, ZADD INCR (no Command variant / flag)",
     "SRANDMEMBER SUNION SINTER SDIFF SMOVE …, HMGET HSETNX HINCRBYFLOAT HSTRLEN … (no Command variant)",
     "LREM LINSERT LPUSHX RPUSHX LPOP/RPOP with count, LPOS, BLPOP … (no Command variant)",
 ];
